@@ -1270,7 +1270,12 @@ class AgProtocol(utils.EventEmitter):
                 handler_name = f'_on_{command.code.lower()}'
 
             if handler := getattr(self, handler_name, None):
-                handler(*command.parameters)
+                try:
+                    handler(*command.parameters)
+                except (TypeError, ValueError):
+                    # Wrong number of parameters or unexpected value
+                    logger.exception('Invalid parameters for %s', handler_name)
+                    self.send_error()
             else:
                 logger.warning('Handler %s not found', handler_name)
                 self.send_response('ERROR')
@@ -1400,8 +1405,9 @@ class AgProtocol(utils.EventEmitter):
         self.emit(self.EVENT_CODEC_NEGOTIATION, self.active_codec)
 
     def _on_bvra(self, vrec: bytes) -> None:
+        state = VoiceRecognitionState(int(vrec))
         self.send_ok()
-        self.emit(self.EVENT_VOICE_RECOGNITION, VoiceRecognitionState(int(vrec)))
+        self.emit(self.EVENT_VOICE_RECOGNITION, state)
 
     def _on_chld(self, operation_code: bytes) -> None:
         call_index: int | None = None
@@ -1446,7 +1452,7 @@ class AgProtocol(utils.EventEmitter):
             )
         )
         self.send_ok()
-        self._remained_slc_setup_features.remove(HfFeature.THREE_WAY_CALLING)
+        self._remained_slc_setup_features.discard(HfFeature.THREE_WAY_CALLING)
         self._check_remained_slc_commands()
 
     def _on_cind_test(self) -> None:
@@ -1543,7 +1549,7 @@ class AgProtocol(utils.EventEmitter):
 
         self.send_ok()
 
-        self._remained_slc_setup_features.remove(HfFeature.HF_INDICATORS)
+        self._remained_slc_setup_features.discard(HfFeature.HF_INDICATORS)
         self._check_remained_slc_commands()
 
     def _on_biev(self, index_bytes: bytes, value_bytes: bytes) -> None:
@@ -1562,7 +1568,8 @@ class AgProtocol(utils.EventEmitter):
 
     def _on_bia(self, *args) -> None:
         for enabled, state in zip(args, self.ag_indicators):
-            state.enabled = bool(int(enabled))
+            if enabled:  # An empty field leaves the indicator unchanged
+                state.enabled = bool(int(enabled))
         self.send_ok()
 
     def _on_bcc(self) -> None:
